@@ -4,6 +4,7 @@ import (
 	"context"
 	"errors"
 	"fmt"
+	"math"
 	"math/rand"
 	"slices"
 	"strings"
@@ -908,6 +909,12 @@ func (d *dealer) syncCall(caller *wamp.Session, msg *wamp.Call) {
 	// The error message that is returned to the Caller MUST use
 	// wamp.error.timeout as the reason URI.
 	if timeout > 0 {
+		// Keep the timeout within what time.Duration can hold, so that a huge
+		// value does not wrap around and expire the call at once.
+		const maxTimeoutMs = int64(math.MaxInt64 / int64(time.Millisecond))
+		if timeout > maxTimeoutMs {
+			timeout = maxTimeoutMs
+		}
 		// Timer removed if context canceled, call cancelled if timeout.
 		var timerCtx context.Context
 		timerCtx, invk.timerCancel = context.WithTimeout(context.Background(),
